@@ -30,10 +30,11 @@ var c16Rec = verifkit.New("TestVerif_C16_StoreModel",
 		"non-trivial = history with >=1 refused conditional operation and >=1 restart; distinct by operation list")
 
 type c16Tok struct {
-	group   string
-	perms   []string
-	expires time.Time
-	pad     string
+	group    string
+	perms    []string
+	expires  time.Time
+	noExpiry bool // stored without an expiry time (the administrative API accepts that): listed, never honoured, never swept
+	pad      string
 	// the remaining fields of a token: every one of them is state that has to survive
 	notBefore *time.Time
 	subgroups bool
@@ -79,8 +80,12 @@ func TestVerif_C16_StoreModel(t *testing.T) {
 		now := time.Now()
 		mkTok := func(name string, tk c16Tok) *Stateful {
 			e := tk.expires
+			ep := &e
+			if tk.noExpiry {
+				ep = nil
+			}
 			u := tk.pad
-			return &Stateful{Token: name, Group: tk.group, Permissions: tk.perms, Expires: &e, Username: &u,
+			return &Stateful{Token: name, Group: tk.group, Permissions: tk.perms, Expires: ep, Username: &u,
 				NotBefore: tk.notBefore, IncludeSubgroups: tk.subgroups, IssuedBy: tk.issuedBy, IssuedAt: tk.issuedAt}
 		}
 		curTag := func() string {
@@ -93,8 +98,9 @@ func TestVerif_C16_StoreModel(t *testing.T) {
 		drawTok := func() c16Tok {
 			off := rapid.SampledFrom([]time.Duration{-8 * 24 * time.Hour, -6 * 24 * time.Hour, -time.Hour, time.Hour, 30 * 24 * time.Hour}).Draw(t, "expiry")
 			return c16Tok{group: rapid.SampledFrom([]string{"g", "g", "h"}).Draw(t, "group"),
-				perms:   rapid.SliceOfNDistinct(rapid.SampledFrom([]string{"present", "message", "op", "token"}), 0, 3, func(s string) string { return s }).Draw(t, "perms"),
-				expires: now.Add(off).UTC().Truncate(time.Second), pad: strings.Repeat("p", rapid.IntRange(0, 40).Draw(t, "pad")),
+				perms:    rapid.SliceOfNDistinct(rapid.SampledFrom([]string{"present", "message", "op", "token"}), 0, 3, func(s string) string { return s }).Draw(t, "perms"),
+				noExpiry: rapid.IntRange(0, 5).Draw(t, "noExpiry") == 0,
+				expires:  now.Add(off).UTC().Truncate(time.Second), pad: strings.Repeat("p", rapid.IntRange(0, 40).Draw(t, "pad")),
 				notBefore: func() *time.Time {
 					switch rapid.IntRange(0, 3).Draw(t, "notBefore") {
 					case 0:
@@ -261,7 +267,7 @@ func TestVerif_C16_StoreModel(t *testing.T) {
 				}
 				cutoff := time.Now().Add(-7 * 24 * time.Hour)
 				for k, tk := range model {
-					if tk.expires.Before(cutoff) {
+					if !tk.noExpiry && tk.expires.Before(cutoff) {
 						delete(model, k)
 						revoked[k] = true
 					}
@@ -351,7 +357,7 @@ func TestVerif_C16_StoreModel(t *testing.T) {
 					continue
 				}
 				for _, x := range []*Stateful{got, f} {
-					if x.Group != want.group || !x.Expires.Equal(want.expires) || strings.Join(x.Permissions, ",") != strings.Join(want.perms, ",") {
+					if x.Group != want.group || (x.Expires == nil) != want.noExpiry || (x.Expires != nil && !x.Expires.Equal(want.expires)) || strings.Join(x.Permissions, ",") != strings.Join(want.perms, ",") {
 						t.Fatalf("token %s is %+v, the model says %+v", name, x, want)
 					}
 				}
@@ -371,7 +377,7 @@ func TestVerif_C16_StoreModel(t *testing.T) {
 				}
 				// Check honours it only inside its window
 				_, _, cerr := got.Check("", want.group)
-				inWindow := want.expires.After(time.Now()) && (want.notBefore == nil || !want.notBefore.After(time.Now()))
+				inWindow := !want.noExpiry && want.expires.After(time.Now()) && (want.notBefore == nil || !want.notBefore.After(time.Now()))
 				if (cerr == nil) != inWindow {
 					t.Fatalf("token %s with expiry %v and not-before %v: Check error %v", name, want.expires, want.notBefore, cerr)
 				}
